@@ -27,7 +27,7 @@ type VRec struct {
 }
 
 func main() {
-	mode := flag.String("mode", "explore", "explore | corpus | replay | pure")
+	mode := flag.String("mode", "explore", "explore | corpus | replay | pureprice")
 	seed := flag.Int64("seed", 1, "PRNG seed")
 	n := flag.Int("n", 10, "number of generated histories")
 	minOps := flag.Int("minops", 30, "")
@@ -44,6 +44,11 @@ func main() {
 	defer f.Close()
 	out := bufio.NewWriterSize(f, 1<<20)
 	defer out.Flush()
+
+	if *mode == "pureprice" {
+		fmt.Printf("pureprice cases=%d\n", runPurePrice(out, *seed, *n))
+		return
+	}
 
 	sum := &Summary{OpCounts: map[string]map[string]int{}, MonEvals: map[string]int{}}
 	w := newWorld()
